@@ -77,10 +77,10 @@ def _worker(hists):
     for hist in hists:
         stored = [uni.root] + [uni.get(p) for p in hist]
         per_block = None
-        for validated in (True, False):
+        for validated, lookups in ((True, None), (False, None), (True, 'head'), (False, 'all')):
             snaps = []
             try:
-                cs, fc = ledger.build(uni, hist, now, validated, snapshots=snaps)
+                cs, fc = ledger.build(uni, hist, now, validated, snapshots=snaps, lookups=lookups)
             except Exception as e:
                 out.append(('valid-block-refused', "a valid block of the history is refused: %r" % (e,), hist))
                 continue
@@ -89,7 +89,8 @@ def _worker(hists):
             # snapshot fingerprints right after creation (they were taken as values; fingerprint lazily now for
             # the last three, eagerly re-taken after further activity below)
             before = [ledger.fingerprint(s, balances=False) for s in snaps]
-            stats['views'] += check_views(cs, uni, stored, out, hist, 'validated' if validated else 'unvalidated')
+            stats['views'] += check_views(cs, uni, stored, out, hist, ('validated' if validated else 'unvalidated') +
+                                          (', balances read at %s between arrivals' % lookups if lookups else ''))
             # also query every intermediate snapshot at its own head, then add one more block on top of the final
             # state and re-take all fingerprints
             for s, n in zip(snaps, stored):
